@@ -37,6 +37,16 @@ from inscripta.biocantor.sequence.alphabet import Alphabet  # noqa: E402
 
 KINDS = ["single", "compound", "parent", "sequence", "cds", "transcript", "feature", "gene", "featcoll", "annot"]
 MODES = ["none", "noseq", "chrom", "chunk"]
+# kinds added for the argument / operand legs of C10 (not part of KINDS: the history legs iterate KINDS):
+#   empty    the EmptyLocation singleton (the mode only decides which hierarchy the OTHER operands hang on)
+#   variant  VariantInterval          varcoll  VariantIntervalCollection (1-3 variants, caller's list NOT sorted)
+VARIANT_KINDS = ["variant", "varcoll"]
+EXTRA_KINDS = ["empty"] + VARIANT_KINDS
+ALL_KINDS = KINDS + EXTRA_KINDS
+# where a variant handed to `incorporate_variants` lies relative to the members (transcripts / features / the interval
+# itself) of the recipe's object, and what it is
+VARIANT_PLACEMENTS = ("before", "inside", "aftermin", "after")
+VARIANT_TYPES = ("snv", "ins", "del")
 STRANDS = {"+": Strand.PLUS, "-": Strand.MINUS, ".": Strand.UNSTRANDED}
 # Qualifier keys are disjoint between the levels of a hierarchy unless the recipe is a `share` recipe: then parent and
 # children carry a common key and/or a key that collides with one of the keys the exporters add themselves
@@ -270,6 +280,102 @@ class Recipe:
             genes=[self._gene(g, p) for g in d["genes"]] or None,
             name=d.get("name"), id=d.get("id"), sequence_name=self._seqname(), qualifiers=d.get("qualifiers"),
             parent_or_seq_chunk_parent=p)
+
+    # ---- kinds added for C10's argument legs: empty location, variants -------------------
+    def _build_empty(self):
+        from inscripta.biocantor.location.location_impl import EmptyLocation
+        return EmptyLocation()
+
+    def _variant(self, spec, parent):
+        from inscripta.biocantor.gene.variants import VariantInterval
+        return VariantInterval(spec["start"], spec["end"], spec["sequence"], spec["variant_type"],
+                               phase_block=spec.get("phase_block"), variant_name=spec.get("name"),
+                               variant_id=spec.get("id"), qualifiers=spec.get("qualifiers"),
+                               parent_or_seq_chunk_parent=parent)
+
+    def _varcoll(self, spec, parent):
+        from inscripta.biocantor.gene.variants import VariantIntervalCollection
+        return VariantIntervalCollection(
+            [self._variant(v, parent) for v in spec["vars"]], variant_collection_name=spec.get("name"),
+            variant_collection_id=spec.get("id"), sequence_name=self._seqname(), qualifiers=spec.get("qualifiers"),
+            parent_or_seq_chunk_parent=parent)
+
+    def _build_variant(self):
+        return self._variant(self.data["var"], self.parent())
+
+    def _build_varcoll(self):
+        return self._varcoll(self.data["vc"], self.parent())
+
+    def members(self):
+        """block lists (chromosome coordinates) of the members of the main object: the transcripts of a gene, the
+        features of a collection, all of them for an annotation collection, the interval itself otherwise"""
+        d = self.data
+        for k in ("cds", "tx", "feat"):
+            if k in d:
+                return [d[k]["blocks"]]
+        if "gene" in d:
+            return [t["blocks"] for t in d["gene"]["txs"]]
+        if "fc" in d:
+            return [f["blocks"] for f in d["fc"]["feats"]]
+        if "annot" in d:
+            return [t["blocks"] for g in d["annot"]["genes"] for t in g["txs"]] + \
+                   [f["blocks"] for c in d["annot"]["fcs"] for f in c["feats"]]
+        if "var" in d:
+            return [[(d["var"]["start"], d["var"]["end"])]]
+        if "vc" in d:
+            return [[(v["start"], v["end"])] for v in d["vc"]["vars"]]
+        return []
+
+    def variant_spec(self, placement, vtype):
+        """plain data of ONE variant placed relative to the members (deterministic from the recipe):
+             before    ends before every member starts
+             inside    in the middle of the longest block of the first member
+             aftermin  first base after the member that ends FIRST (the other members overlap it or lie downstream)
+             after     starts where the last member ends
+           snv: one base replaced; ins: one base -> that base + GG (left padded); del: two bases -> the first (left padded).
+           In chunk mode the position is moved into the chunk window."""
+        d = self.data
+        L, g = d["L"], d["genome"]
+        ms = self.members() or [[(L // 3, 2 * L // 3)]]
+        s_min = min(b[0][0] for b in ms)
+        e_max = max(b[-1][1] for b in ms)
+        e_min = min(b[-1][1] for b in ms)
+        if placement == "before":
+            p = s_min - 2
+        elif placement == "inside":
+            a, b = max(ms[0], key=lambda bl: bl[1] - bl[0])
+            p = a + (b - a) // 2
+        elif placement == "aftermin":
+            p = e_min
+        else:
+            p = e_max
+        n = 2 if vtype == "del" else 1
+        lo, hi = (d["chunk"] if self.mode == "chunk" else (0, L))
+        p = max(lo, min(p, hi - n))
+        ref = g[p]
+        if vtype == "snv":
+            alt = "A" if ref != "A" else "C"
+        elif vtype == "ins":
+            alt = ref + "GG"
+        else:
+            alt = ref
+        return {"start": p, "end": p + n, "sequence": alt, "variant_type": {"snv": "SNV", "ins": "insertion",
+                                                                            "del": "deletion"}[vtype],
+                "name": f"v_{placement}", "id": None, "phase_block": None, "qualifiers": {"vnote": ["q1"]}}
+
+    def build_variants(self, placement, vtype, as_collection):
+        """a fresh VariantInterval / VariantIntervalCollection (the placed variant + an SNV after the last member) on a
+        fresh parent equal to the object's"""
+        parent = self.parent()
+        spec = self.variant_spec(placement, vtype)
+        if not as_collection:
+            return self._variant(spec, parent)
+        specs = [spec]
+        extra = self.variant_spec("after", "snv")
+        if extra["start"] >= spec["end"] + 1:
+            specs.append(dict(extra, name="v_extra"))
+        # the caller's list is NOT in coordinate order
+        return self._varcoll({"vars": specs[::-1], "name": "vc", "id": None, "qualifiers": None}, parent)
 
 
 # ----------------------------------------------------------------------------------------------
@@ -547,6 +653,43 @@ def _force_inherit(kind, d, r, L):
 INHERIT_KINDS = ("cds", "transcript", "feature", "gene", "featcoll", "annot")
 
 
+def _variant_spec(rng, g, lo, hi, i=0):
+    """one random variant inside [lo, hi): SNV / insertion / deletion (left padded or not)"""
+    vt = rng.choice(VARIANT_TYPES)
+    n = 1 if vt != "del" else rng.randint(2, 3)
+    p = rng.randint(lo, max(lo, hi - n))
+    ref = g[p]
+    if vt == "snv":
+        alt = "A" if ref != "A" else "C"
+    elif vt == "ins":
+        alt = ref + "".join(rng.choice("ACGT") for _ in range(rng.randint(1, 3)))
+    else:
+        alt = ref if rng.random() < 0.7 else ""
+    return {"start": p, "end": p + n, "sequence": alt,
+            "variant_type": {"snv": "SNV", "ins": "insertion", "del": "deletion"}[vt],
+            "name": rng.choice([None, f"var{i}"]), "id": rng.choice([None, f"V{i}"]),
+            "phase_block": rng.choice([None, 1]),
+            "qualifiers": rng.choice([None, {"vnote": rng.sample(QUAL_VALS, rng.randint(1, 2))}])}
+
+
+def _variant_recipe(kind, d, rng, L, mode):
+    """variant kinds: the chunk window covers every variant (a variant outside its chunk cannot be constructed)"""
+    g = d["genome"]
+    if kind == "variant":
+        d["var"] = _variant_spec(rng, g, 2, L - 2)
+        vs = [d["var"]]
+    else:
+        n = rng.randint(1, 3)
+        # disjoint thirds of the chromosome, non adjacent; the list is shuffled (not in coordinate order)
+        w = (L - 4) // 3
+        vs = [_variant_spec(rng, g, 2 + j * w + 1, 2 + (j + 1) * w - 1, j) for j in range(n)]
+        rng.shuffle(vs)
+        d["vc"] = {"vars": vs, "name": rng.choice([None, "vc0"]), "id": rng.choice([None, "VC0"]),
+                   "qualifiers": rng.choice([None, {"cvnote": ["x"]}])}
+    s, e = min(v["start"] for v in vs), max(v["end"] for v in vs)
+    d["chunk"] = [rng.randint(0, s), rng.randint(e, L)]
+
+
 def make(kind, rng, mode=None, spelling=None, cut=None, inherit=False):
     """Draw a recipe. All randomness is consumed here; `recipe.build()` is deterministic.
     `inherit` (kinds INHERIT_KINDS): the parent level (gene / feature collection; for the single-interval kinds the
@@ -557,7 +700,7 @@ def make(kind, rng, mode=None, spelling=None, cut=None, inherit=False):
     `cut` (chunk mode, kinds cds/transcript/gene/annot): "lo" | "hi" | "both" — the chunk window is guaranteed to cut the
     (primary) CDS on the low-coordinate side / high-coordinate side / both, so that the chunk-relative view has fewer
     codons than the chromosome view (5' or 3' by strand; CDS with >= 18 bases, 1-4 exons)."""
-    if kind not in KINDS:
+    if kind not in ALL_KINDS:
         raise KeyError(kind)
     mode = mode or rng.choice(MODES)
     L = rng.randint(60, 160)
@@ -567,7 +710,7 @@ def make(kind, rng, mode=None, spelling=None, cut=None, inherit=False):
         d["enum_types"] = spelling == "e"
     share = rng.random() < 0.25
     d["share"] = share
-    if kind in ("single", "compound", "parent"):
+    if kind in ("single", "compound", "parent", "empty"):
         # coordinate system of the direct parent: the chunk in chunk mode
         if mode == "chunk":
             cs = rng.randint(0, L // 3)
@@ -633,6 +776,8 @@ def make(kind, rng, mode=None, spelling=None, cut=None, inherit=False):
                       "fcs": [_fc_spec(rng, L, share, 5 + i) for i in range(nf)],
                       "name": rng.choice([None, "ac"]), "id": rng.choice([None, "AC1"]),
                       "qualifiers": _quals(rng, "annot", None, 0.4)}
+    elif kind in VARIANT_KINDS:
+        _variant_recipe(kind, d, rng, L, mode)
     if "chunk" not in d:
         span = _span(d) or (L // 3, 2 * L // 3)
         d["chunk"] = _chunk_window(rng, L, span)
@@ -647,4 +792,64 @@ def make(kind, rng, mode=None, spelling=None, cut=None, inherit=False):
         _force_cut(kind, d, random.Random(rng.getrandbits(32)), cut, L)
     elif inherit and kind in INHERIT_KINDS:
         _force_inherit(kind, d, random.Random(rng.getrandbits(32)), L)
+    elif cut and kind == "compound" and (cut == "deg" or cut[0] == "L"):
+        _force_degenerate(d, random.Random(rng.getrandbits(32)), cut, (d["chunk"][1] - d["chunk"][0]) if mode == "chunk" else L)
     return Recipe(kind, mode, d)
+
+
+def degenerate_blocks(r, top, near=None):
+    """2-5 blocks that are deliberately NOT a clean exon list: zero-length blocks (inside / at the start / at the end of
+    another block, or apart), duplicates, nested, adjacent and overlapping blocks; half of the time not in coordinate
+    order.  Every block has start <= end and lies in [0, top]."""
+    w0 = r.randint(0, max(0, top - 16)) if near is None else max(0, min(near - 2, top - 4))
+    a = w0 + r.randint(0, 3)
+    bl = [(a, a + r.randint(1, 6))]
+    for _ in range(r.randint(1, 4)):
+        s, e = bl[-1] if r.random() < 0.6 else r.choice(bl)
+        how = r.choice(["zero-in", "zero-in", "zero-start", "zero-end", "dup", "nested", "adjacent", "overlap", "apart",
+                        "zero-apart"])
+        if how == "zero-in":
+            p = r.randint(s, e)
+            nb = (p, p)
+        elif how == "zero-start":
+            nb = (s, s)
+        elif how == "zero-end":
+            nb = (e, e)
+        elif how == "dup":
+            nb = (s, e)
+        elif how == "nested":
+            x = r.randint(s, e)
+            nb = (x, r.randint(x, e))
+        elif how == "adjacent":
+            nb = (e, e + r.randint(1, 3))
+        elif how == "overlap":
+            x = r.randint(s, e)
+            nb = (x, e + r.randint(0, 3))
+        elif how == "apart":
+            nb = (e + 2, e + 2 + r.randint(1, 3))
+        else:
+            nb = (e + 1, e + 1)
+        bl.append((max(0, min(nb[0], top)), max(0, min(nb[1], top))))
+    if r.random() < 0.5:
+        r.shuffle(bl)
+    return bl
+
+
+def _force_degenerate(d, r, cut, top):
+    """compound recipes whose block list is degenerate (`deg`: drawn by `degenerate_blocks`; `Lp0-5_3-3_6-8`: the literal
+    blocks 0-5, 3-3, 6-8 on the plus strand — p / m / u); the other operands of the binary operations lie over the same
+    coordinates, one of them is degenerate too"""
+    strand = d["loc"]["strand"]
+    if cut == "deg":
+        bl = degenerate_blocks(r, top)
+    else:
+        strand = {"p": "+", "m": "-", "u": "."}[cut[1]]
+        bl = [tuple(int(x) for x in b.split("-")) for b in cut[2:].split("_")]
+    d["loc"] = {"strand": strand, "blocks": bl}
+    lo, hi = min(b[0] for b in bl), max(b[1] for b in bl)
+    hi = max(hi, lo + 2)
+    a = r.randint(lo, hi - 1)
+    d["others"] = [{"single": True, "strand": strand, "blocks": [(a, r.randint(a, min(top, hi + 1)))]},
+                   {"strand": strand if r.random() < 0.7 else r.choice("+-."), "blocks": degenerate_blocks(r, top, lo)},
+                   {"strand": strand, "blocks": [(lo, lo + 1), (min(top, lo + 2), min(top, hi + 2))]}]
+    d["degenerate"] = True
